@@ -55,17 +55,19 @@ def declaredE (f : Schema → Json → Option Bool) (req : List String) (kvs : L
          | _ => f s v)
     and3 here (declaredE f req kvs r)
 
-/-- members that no property declares: per `additionalProperties` -/
+/-- a member that no property declares: per `additionalProperties` -/
+def extraHere (f : Schema → Json → Option Bool) (additional : Additional Schema) (v : Json) : Option Bool :=
+  match additional with
+  | .open_ => some true
+  | .closed => some false
+  | .schema s => f s v
+
+/-- members that no property declares -/
 def extraE (f : Schema → Json → Option Bool) (props : List (String × Schema)) (additional : Additional Schema) :
     List (String × Json) → Option Bool
   | [] => some true
   | (k, v) :: r =>
-    let here : Option Bool :=
-      if props.any (fun p => p.1 == k) then some true else
-      match additional with
-      | .open_ => some true
-      | .closed => some false
-      | .schema s => f s v
+    let here : Option Bool := if props.any (fun p => p.1 == k) then some true else extraHere f additional v
     and3 here (extraE f props additional r)
 
 /-- validity under the enforced projection -/
@@ -158,6 +160,73 @@ def structE (rec : Schema → Id → Bool) (d : Doc) (σ : Space) (props : List 
   props.all (fun q => fields.any (fun p => p.wire == q.1)) &&
   fieldsE rec σ props req (match addl with | .open_ => true | _ => false) fields && requiredFields d σ props fields req
 
+/-- the payload of a variant is enforced by the schema that stands for it -/
+def variantE (rec : Schema → Id → Bool)
+    (structE' : List (String × Schema) → List String → Additional Schema → List Field → Bool → Bool)
+    (deny : Bool) (s : Schema) (dt : VDetails) : Bool :=
+  match dt, s with
+  | .simple, .null => true
+  | .item t, s => rec s t
+  | .tuple ts, .tuple items => zipB rec items ts
+  | .struct ps, .object props req addl => structE' props req addl ps deny
+  | _, _ => false
+
+/-- a branch of an externally tagged union that stands for variant `vr`: a data-less variant is one of the values of a
+    string enumeration (its map form `{"v": null}` is `validE`'s carve-out); a variant with data is the single-member
+    object `{wire: payload}` -/
+def extBranchE (rec : Schema → Id → Bool) (d : Doc) (σ : Space) (deny : Bool) (vr : Variant) (s : Schema) : Bool :=
+  match s with
+  | .enumVals vs => isSimple vr && vs.any (· == Json.str vr.wire)
+  | .object [(k, sk)] [k'] _ =>
+    !isSimple vr && k == vr.wire && k' == vr.wire && variantE rec (structE rec d σ) deny sk vr.details
+  | _ => false
+
+/-- a branch of an internally tagged union that stands for variant `vr`: an object whose `tag` member is the one-value
+    enumeration naming the variant; a data-less variant's branch declares nothing else and is open (serde ignores other
+    members of a unit variant); a struct variant enforces the remaining members -/
+def intBranchE (rec : Schema → Id → Bool) (d : Doc) (σ : Space) (deny : Bool) (tg : String) (vr : Variant) (s : Schema) : Bool :=
+  match s with
+  | .object props req addl =>
+    (match props.find? (fun p => p.1 == tg) with
+     | some (_, .enumVals [.str w]) =>
+       w == vr.wire && nodupB (props.map (·.1)) &&
+       (match vr.details with
+        | .simple =>
+          props.all (fun p => p.1 == tg) && req.all (fun r => r == tg) && (match addl with | .open_ => true | _ => false)
+        | .struct ps =>
+          structE rec d σ (props.filter (fun p => p.1 != tg)) (req.filter (fun r => r != tg)) addl ps deny
+        | _ => false)
+     | _ => false)
+  | _ => false
+
+/-- a branch of an adjacently tagged union that stands for variant `vr`: `{tag: <one value>, content: <payload>}` and
+    nothing else; closed only if the type denies unknown members -/
+def adjBranchE (rec : Schema → Id → Bool) (d : Doc) (σ : Space) (deny : Bool) (tg ct : String) (vr : Variant) (s : Schema) : Bool :=
+  match s with
+  | .object props req addl =>
+    (match props.find? (fun p => p.1 == tg) with
+     | some (_, .enumVals [.str w]) =>
+       w == vr.wire && tg != ct && nodupB (props.map (·.1)) &&
+       props.all (fun p => p.1 == tg || p.1 == ct) && req.all (fun r => r == tg || r == ct) &&
+       (match addl with | .open_ => true | .closed => deny | .schema _ => false) &&
+       (match props.find? (fun p => p.1 == ct) with
+        | none => isSimple vr && (match addl with | .open_ => true | _ => false) && !req.contains ct
+        | some (_, sc) =>
+          if isSimple vr then admitsNull d (nullFuel d) sc
+          else
+            variantE rec (structE rec d σ) deny sc vr.details &&
+            (match vr.details with
+             | .item t' => !optionLikeT σ t' || !req.contains ct || admitsNull d (nullFuel d) sc
+             | _ => true))
+     | _ => false)
+  | _ => false
+
+/-- untagged unions: the i-th variant's payload is enforced by the i-th branch -/
+def untaggedE (rec : Schema → Id → Bool) (d : Doc) (σ : Space) (deny : Bool) : List Schema → List Variant → Bool
+  | [], [] => true
+  | s :: ss, v :: vs => variantE rec (structE rec d σ) deny s v.details && untaggedE rec d σ deny ss vs
+  | _, _ => false
+
 /-- one schema construct against one (non-transparent) kind of entry -/
 def encD (rec : Schema → Id → Bool) (d : Doc) (σ : Space) (s : Schema) (det : Details) : Bool :=
   match s, det with
@@ -185,6 +254,14 @@ def encD (rec : Schema → Id → Bool) (d : Doc) (σ : Space) (s : Schema) (det
   | .oneOf [.null, s'], .option t' => rec s' t'
   | .anyOf [s', .null], .option t' => rec s' t'
   | .anyOf [.null, s'], .option t' => rec s' t'
+  | .oneOf ss, .enum _ .external variants deny _ _ => variants.all (fun vr => ss.any (extBranchE rec d σ deny vr))
+  | .anyOf ss, .enum _ .external variants deny _ _ => variants.all (fun vr => ss.any (extBranchE rec d σ deny vr))
+  | .oneOf ss, .enum _ (.internal tg) variants deny _ _ => variants.all (fun vr => ss.any (intBranchE rec d σ deny tg vr))
+  | .anyOf ss, .enum _ (.internal tg) variants deny _ _ => variants.all (fun vr => ss.any (intBranchE rec d σ deny tg vr))
+  | .oneOf ss, .enum _ (.adjacent tg ct) variants deny _ _ => variants.all (fun vr => ss.any (adjBranchE rec d σ deny tg ct vr))
+  | .anyOf ss, .enum _ (.adjacent tg ct) variants deny _ _ => variants.all (fun vr => ss.any (adjBranchE rec d σ deny tg ct vr))
+  | .oneOf ss, .enum _ .untagged variants deny _ _ => untaggedE rec d σ deny ss variants
+  | .anyOf ss, .enum _ .untagged variants deny _ _ => untaggedE rec d σ deny ss variants
   | _, _ => false
 
 def encB (d : Doc) (σ : Space) (rid : String → Option Id) : Nat → Schema → Id → Bool
@@ -220,7 +297,7 @@ def inFragment : Nat → Schema → Bool
     | .object [] [] (.schema sv) => inFragment f sv
     | .object props _ addl =>
       (match addl with | .schema _ => false | _ => true) && props.all (fun p => inFragment f p.2)
-    | .oneOf [s', .null] | .oneOf [.null, s'] | .anyOf [s', .null] | .anyOf [.null, s'] => inFragment f s'
+    | .oneOf ss | .anyOf ss => ss.all (inFragment f)
     | _ => false
 
 /-- every definition is enforced by the type registered for it -/
